@@ -1,1 +1,66 @@
 //! Verification facade (cfg-gated): ranges family.  See `crate::verif`.
+//!
+//! Forwarding functions for the `pub(crate)` methods of [`BlockRanges`] and for the
+//! crate-private `BlockRangeExt` helpers of a single [`BlockRange`].
+
+use crate::block_ranges::{BlockRange, BlockRangeExt, BlockRanges, BlockRangesError};
+
+pub fn headn(ranges: &BlockRanges, limit: u64) -> BlockRanges {
+    ranges.headn(limit)
+}
+
+pub fn tailn(ranges: &BlockRanges, limit: u64) -> BlockRanges {
+    ranges.tailn(limit)
+}
+
+pub fn edges(ranges: &BlockRanges) -> BlockRanges {
+    ranges.edges()
+}
+
+pub fn partitions(ranges: &BlockRanges) -> Option<(BlockRanges, u64, BlockRanges)> {
+    ranges.partitions()
+}
+
+pub fn left_of(ranges: &BlockRanges, height: u64) -> Option<u64> {
+    ranges.left_of(height)
+}
+
+pub fn right_of(ranges: &BlockRanges, height: u64) -> Option<u64> {
+    ranges.right_of(height)
+}
+
+pub fn range_display(range: &BlockRange) -> String {
+    range.display().to_string()
+}
+
+pub fn range_validate(range: &BlockRange) -> Result<(), BlockRangesError> {
+    range.validate()
+}
+
+pub fn range_len(range: &BlockRange) -> u64 {
+    BlockRangeExt::len(range)
+}
+
+pub fn range_is_adjacent(range: &BlockRange, other: &BlockRange) -> bool {
+    range.is_adjacent(other)
+}
+
+pub fn range_is_overlapping(range: &BlockRange, other: &BlockRange) -> bool {
+    range.is_overlapping(other)
+}
+
+pub fn range_is_left_of(range: &BlockRange, other: &BlockRange) -> bool {
+    range.is_left_of(other)
+}
+
+pub fn range_is_right_of(range: &BlockRange, other: &BlockRange) -> bool {
+    range.is_right_of(other)
+}
+
+pub fn range_headn(range: &BlockRange, limit: u64) -> BlockRange {
+    range.headn(limit)
+}
+
+pub fn range_tailn(range: &BlockRange, limit: u64) -> BlockRange {
+    range.tailn(limit)
+}
